@@ -10,12 +10,13 @@ both as an extension record `Ext` threaded through a second transcription of the
 `nunavutCopyBits(dst, dst_offset_bits, length_bits, src, src_offset_bits)` (support/serialization.j2) contains three
 assertions about the *addresses* `src`, `dst` (compiled with `enable_serialization_asserts`):
 ```
-NUNAVUT_ASSERT(src != dst);                                                            -- head, both branches
+NUNAVUT_ASSERT((length_bits == 0U) || (src != dst));                                   -- head, both branches
 -- unaligned branch only (psrc = src, pdst = dst):
 NUNAVUT_ASSERT(((length_bits > 0U) && (psrc < pdst)) ? ((uintptr_t)(psrc + ((src_offset_bits + length_bits + 7U) / 8U)) <= (uintptr_t)pdst) : 1);
 NUNAVUT_ASSERT(((length_bits > 0U) && (psrc > pdst)) ? ((uintptr_t)(pdst + ((dst_offset_bits + length_bits + 7U) / 8U)) <= (uintptr_t)psrc) : 1);
 ```
-(`length_bits > 0U &&` since /repo 443d39c; `Ext.fixed = false` is the text before it).  Every call the generated
+(`length_bits > 0U &&` since /repo 443d39c, `Ext.fixed = false` is the text before it; `(length_bits == 0U) ||` since
+/repo 23731cd, `Ext.headGuarded = false` is the unguarded `src != dst` before it).  Every call the generated
 code makes pairs the serialization buffer pointer of the current function (`buffer` = address `pb`: the user's buffer or
 `&buffer[offset_bits / 8U]` of an enclosing function) with one *other* object: the `value`/`tmp` local of
 `nunavutSetUxx`, the `val`/`tmp` local of `nunavutGetU8…64`, a member array of the object (source of the bulk copy in
@@ -58,8 +59,8 @@ structure Ext where
   adr : Other → (pb off sz : Nat) → Nat := fun _ _ _ _ => 0
   /-- overlap assertions as emitted since 443d39c (`length_bits > 0U &&`); `false`: the text before -/
   fixed : Bool := true
-  /-- `src != dst` only demanded of copies of at least one bit (NOT the emitted text; see the theorems) -/
-  headGuarded : Bool := false
+  /-- `src != dst` only demanded of copies of at least one bit (the text since 23731cd); `false`: the text before -/
+  headGuarded : Bool := true
   /-- `enable_override_variable_array_capacity` -/
   ovr : Bool := false
   /-- the user's `<T>_<f>_ARRAY_CAPACITY_` for an array of this element type and DSDL capacity -/
@@ -424,7 +425,7 @@ disjoint from the user's buffer `[b0, b0 + L0)` (no assumption about order or di
 def Placed (X : Ext) (b0 L0 : Nat) : Prop :=
   ∀ k pb off sz, Disj (X.adr k pb off sz) sz b0 L0
 
-/-- extra assumption needed for the unguarded `src != dst` on the decode side: no such object starts exactly at a
+/-- extra assumption that the unguarded `src != dst` (text before 23731cd) needs on the decode side: no such object starts exactly at a
 pointer at or behind the end of the buffer (where the code may form `&buffer[offset_bits / 8U]`). -/
 def NoAliasPastEnd (X : Ext) (b0 L0 : Nat) : Prop :=
   ∀ k pb off sz, b0 + L0 ≤ pb → X.adr k pb off sz ≠ pb
